@@ -44,7 +44,8 @@ def c10_case(draw):
         others_l.insert(0, {"case": twin, "traced": True})
     return {"a": a, "detail": draw(st.sampled_from(["hash", "repr", "context", "all", "hash,repr,context"])),
             "others": others_l, "reuse": draw(st.booleans()), "mode": draw(st.sampled_from(["file", "file", "dir"])),
-            "shared_orchestrator": draw(st.booleans()), "iterator": draw(st.integers(0, 5)) == 0}
+            "shared_orchestrator": draw(st.booleans()), "iterator": draw(st.integers(0, 5)) == 0,
+            "nonfinite": draw(st.sampled_from([None] * 7 + ["inf", "nan", "-inf"])), "fresh_process": draw(st.integers(0, 9)) == 0}
 
 
 def _files() -> Dict[str, str]:
@@ -56,8 +57,37 @@ def _files() -> Dict[str, str]:
     return out
 
 
+def _with_nonfinite(a: Dict[str, Any], which: str) -> Dict[str, Any]:
+    """Plant a non-finite float among the parameters of the first multiply / add / echo node (config or context)."""
+    a = copy.deepcopy(a)
+    val = float(which)
+    for i, n in enumerate(a["nodes"]):
+        if n["p"] in ("FloatMultiplyOperation", "FloatAddOperation", "FloatMultiplyOperationWithDefault", "VEchoProbe", "VInPlaceScaleOp") and not n.get("sweep"):
+            pname = M.LIB[n["p"]]["params"][0][0]
+            if i % 2 == 0:
+                n.setdefault("params", {})[pname] = val
+            else:
+                (n.get("params") or {}).pop(pname, None)
+                a["ctx"][pname] = val
+            break
+    return a
+
+
+def _fresh_process_trace(a: Dict[str, Any], detail: str, workroot: str):
+    import subprocess
+    import sys
+
+    p = subprocess.run([sys.executable, "-m", "verif.props.c10_child"], input=json.dumps({"a": a, "detail": detail, "workdir": os.path.abspath(workroot)}),
+                       capture_output=True, text=True, timeout=120, cwd=os.path.abspath(workroot))
+    if "@@RESULT@@" not in p.stdout:
+        return None
+    return json.loads(p.stdout.split("@@RESULT@@", 1)[1])
+
+
 def check_case(case: Dict[str, Any], col: Collector, workroot: str = ".") -> None:
     a = {k: case["a"][k] for k in ("nodes", "ctx", "data")}
+    if case.get("nonfinite"):
+        a = _with_nonfinite(a, case["nonfinite"])
     detail = case.get("detail", "hash")
     _files()
     ref = observe.run_real(copy.deepcopy(a))
@@ -99,6 +129,31 @@ def check_case(case: Dict[str, Any], col: Collector, workroot: str = ".") -> Non
         r2 = tracelib.run_traced(copy.deepcopy(a), detail, case.get("mode", "file"), os.path.join(tdir, "r2"), pipeline=pipe)
         if case.get("iterator"):
             _iterator_clause(case, detail, tdir, col)
+        if case.get("fresh_process") and r2["traces"] and not case.get("nonfinite"):
+            # the same configuration traced in a brand-new interpreter (no history at all) must give the same trace
+            base = _fresh_process_trace(a, detail, tdir)
+            col.labels["fresh_process_baseline"] += 1
+            if base is not None:
+                mine = json.loads(json.dumps([tracelib.normalise_record(x) for x in r2["traces"][0]["records"]], default=repr))
+                for rec in mine + base["records"]:
+                    # the registry fingerprint pins which modules the process has registered: process state by design
+                    env = (rec.get("assertions") or {}).get("environment") if isinstance(rec.get("assertions"), dict) else None
+                    if isinstance(env, dict):
+                        env.pop("registry.fingerprint", None)
+                if base["records"] != mine:
+                    fields = "record_count"
+                    for x, y in zip(mine, base["records"]):
+                        if x != y:
+                            fs = sorted(k for k in set(x) | set(y) if x.get(k) != y.get(k))
+                            sub = []
+                            for f in fs:
+                                if isinstance(x.get(f), dict) and isinstance(y.get(f), dict):
+                                    sub += [f + "." + k for k in sorted(set(x[f]) | set(y[f])) if x[f].get(k) != y[f].get(k)]
+                                else:
+                                    sub.append(f)
+                            fields = ",".join(sub[:3]) + "@" + str(x.get("record_type"))
+                            break
+                    col.add("trace_differs_from_fresh_process", {"fields": fields}, case, None, None)
         files_2 = _files()
         _judge(case, a, m, ref, r1, r2, files_ref, files_1, files_2, col)
     finally:
@@ -143,7 +198,8 @@ def _iterator_clause(case, detail, tdir, col) -> None:
 def _judge(case, a, m, ref, r1, r2, files_ref, files_1, files_2, col) -> None:
     labs = labels_of(a, m) + ["detail:" + case.get("detail", "hash"), "history:%d" % len(case.get("others", [])),
                               "reuse" if case.get("reuse") else "fresh", "mode:" + case.get("mode", "file"),
-                              "shared_orchestrator" if case.get("shared_orchestrator") else "own_orchestrator"]
+                              "shared_orchestrator" if case.get("shared_orchestrator") else "own_orchestrator"] + \
+        (["nonfinite_parameter"] if case.get("nonfinite") else [])
     ctx_write = any(e.get("post") is not None and not observe.equal(e["pre"], e["post"]) for e in m["log"])
     nontriv = len(a["nodes"]) >= 2 and ctx_write and (bool(case.get("others")) or bool(case.get("reuse")))
     col.count(case, labs, nontriv)
@@ -229,4 +285,4 @@ def valid(case: Any) -> bool:
 
 
 def label_requirements(tier: str) -> Dict[str, Any]:
-    return {"shared_orchestrator": 0.2, "iterator_in_context": 20, "reuse": 0.2, "fresh": 0.3, "succeeds": 0.2, "fails": 0.2, "sweep": 0.05, "history:0": 0.04, "history:2": 0.06}
+    return {"fresh_process_baseline": 30, "nonfinite_parameter": 0.05, "shared_orchestrator": 0.2, "iterator_in_context": 20, "reuse": 0.2, "fresh": 0.3, "succeeds": 0.2, "fails": 0.2, "sweep": 0.05, "history:0": 0.04, "history:2": 0.06}
